@@ -144,11 +144,41 @@ func Draw(t *rapid.T, o Opts) *jv.V {
 			defs.Set("d"+strconv.Itoa(i), d)
 		}
 		g.region = -1
+		if o.Draft == refmodel.D7 && !o.CommonOnly {
+			// keywords of later drafts that mean nothing here: a `$anchor` bearing the very name of a
+			// draft-07 `$id: "#A<i>"` anchor, on another subschema (unless the root already holds it,
+			// an entry under `$defs` — not a draft-07 keyword, so nothing below it is a schema to
+			// draft-07, though the library keeps it)
+			for i := 0; i < g.nDefs; i++ {
+				if g.anchor[i] && g.coin(3, "strayanchor") {
+					holder := obj(jv.Member{K: "$anchor", V: str("A" + strconv.Itoa(i))}, jv.Member{K: "not", V: obj()})
+					switch g.intn(3, "strayanchorat") {
+					case 0:
+						if !root.Has("$anchor") {
+							root.Set("$anchor", str("A"+strconv.Itoa(i)))
+						}
+					case 1:
+						defs.Set("zz-stray"+strconv.Itoa(i), holder)
+					default:
+						a := root.Get("allOf")
+						if a == nil || a.K != jv.Arr {
+							a = &jv.V{K: jv.Arr}
+							root.Set("allOf", a)
+						}
+						a.A = append(a.A, obj(jv.Member{K: "$anchor", V: str("A" + strconv.Itoa(i))}))
+					}
+				}
+			}
+		}
 		if o.Draft == refmodel.D7 {
 			root.Set("definitions", defs)
 		} else {
 			root.Set("$defs", defs)
 		}
+	} else if o.Draft == refmodel.D7 && !o.CommonOnly && root.K == jv.Obj && g.coin(6, "d7dollardefs") {
+		// `$defs` in a draft-07 document (which has no `definitions`: the library refuses the two
+		// together, an open finding of C18): not a draft-07 keyword, kept and written back as it is
+		root.Set("$defs", obj(jv.Member{K: "x", V: obj(jv.Member{K: "type", V: str("integer")})}))
 	}
 	if !o.NoMeta {
 		switch o.Draft {
